@@ -245,7 +245,7 @@ def parse_dot(path):
     """Labelled state graph from -dump dot,actionlabels.  Returns (nodes, edges, inits):
     nodes {id: state dict}, edges [(src, dst, action, [args])], inits [ids]."""
     nodes, edges, inits = {}, [], []
-    re_node = re.compile(r'^(-?\d+) \[label="(.*)"(,style = filled)?\]\s*;?$')
+    re_node = re.compile(r'^(-?\d+) \[label="(.*?)"(?:,tooltip=".*?")?(,style = filled)?(?:,tooltip=".*")?\]\s*;?$')
     re_edge = re.compile(r'^(-?\d+) -> (-?\d+) \[label="(.*?)"')
     with open(path) as fh:
         for ln in fh:
